@@ -160,7 +160,10 @@ def pairs_for(case, i):
     n = h(i, case["salt"]) % 4
     out = []
     for j in range(n):
-        b = "b%d" % (h("%s#%d" % (i, j), case["salt"]) % case["nbins"])
+        # (bin names whose natural order is not their text order too)
+        pool = [["b0", "b1", "b2"], ["K2", "K10", "K1"], ["9", "10", "100"],
+                ["b", "B", "a"]][case["salt"] % 4]
+        b = pool[h("%s#%d" % (i, j), case["salt"]) % case["nbins"]]
         out.append((["path", b], b))
     return out
 
